@@ -476,16 +476,17 @@ Definition enc_op (o : op) : val :=
   end.
 (* a file content, coded against the old Manifest and the new text to keep the cases small:
    None | 1 = the old Manifest content | 2 = the new text | the data itself *)
-Definition enc_data (old : option str) (new : str) (o : option str) : val :=
+Definition enc_data (old new : option str) (o : option str) : val :=
   match o with
   | None => VNone
   | Some d =>
+      let is_new := match new with Some t => str_eqb d t | None => false end in
       match old with
-      | Some od => if str_eqb d od then VZ 1 else if str_eqb d new then VZ 2 else VS d
-      | None => if str_eqb d new then VZ 2 else VS d
+      | Some od => if str_eqb d od then VZ 1 else if is_new then VZ 2 else VS d
+      | None => if is_new then VZ 2 else VS d
       end
   end.
-Definition enc_state (old : option str) (new : str) (s : fs) : val :=
+Definition enc_state (old new : option str) (s : fs) : val :=
   VL [enc_data old new (file_data s P); enc_data old new (file_data s TMP)].
 (* stream "update": written?, ops, the state after every crash prefix k = 0..n, the state after
    an OSError at call k = 0..n-1 (with the discard) *)
@@ -495,7 +496,7 @@ Definition run_update_with (w : fs -> N -> nat -> str -> list op) (b : bstr) : v
   | Fail k => VErr k
   | Ok (wr, ops) =>
       let old := file_data s P in
-      let new := match update_text (u_thin i) (u_scan i) (u_fetch i) with Ok (Some t) => t | _ => [] end in
+      let new := match update_text (u_thin i) (u_scan i) (u_fetch i) with Ok o => o | Fail _ => None end in
       VL [VB wr; VL (map enc_op ops);
           VL (map (fun k => enc_state old new (run (firstn k ops) s)) (seq 0 (S (length ops))));
           VL (map (fun k => enc_state old new (run (eio_ops ops k) s)) (seq 0 (length ops)))]
@@ -540,4 +541,13 @@ Definition run_line (b : bstr) : val :=
   | [ty; e] => let '(n, ck) := dec_entry e in
                match manifest_line (unesc ty) n ck with Ok t => VS t | Fail k => VErr k end
   | _ => VNone
+  end.
+
+(* all streams in one cases file: (stream tag, case) *)
+Definition run_any (p : nat * bstr) : val :=
+  match fst p with
+  | 0%nat => run_line (snd p)
+  | 1%nat => run_text (snd p)
+  | 2%nat => run_update (snd p)
+  | _ => run_parse (snd p)
   end.
